@@ -437,8 +437,15 @@ func (p *Prog) NewFlow(funcs []*ssa.Function) *Flow {
 	}
 	for round := 0; round < 4; round++ {
 		for _, fn := range funcs {
-			if f.poly[fn] || fn.Parent() != nil || fn.Object() == nil || fn.Object().Exported() || addrTaken(fn) || len(fn.AnonFuncs) > 0 {
+			if f.poly[fn] || fn.Parent() != nil || fn.Object() == nil || addrTaken(fn) || len(fn.AnonFuncs) > 0 {
 				continue
+			}
+			if fn.Object().Exported() {
+				// an exported method of an unexported type is as private as the type
+				rn := recvNamed(fn)
+				if rn == nil || rn.Obj().Exported() {
+					continue
+				}
 			}
 			var sites []ssa.CallInstruction
 			for _, cs := range p.Callers(fn) {
@@ -460,6 +467,14 @@ func (p *Prog) NewFlow(funcs []*ssa.Function) *Flow {
 			for _, pr := range fn.Params {
 				if isStringType(pr.Type()) {
 					hasStr = true
+				}
+				// a record passed by value whose fields hold text (a command under construction)
+				if st, isSt := pr.Type().Underlying().(*types.Struct); isSt {
+					for i := 0; i < st.NumFields(); i++ {
+						if isStringType(st.Field(i).Type()) {
+							hasStr = true
+						}
+					}
 				}
 			}
 			for _, cs := range sites {
